@@ -168,7 +168,7 @@ func (o *vfbChainOracle) finalScan() {
 			if !n.running {
 				continue
 			}
-			bs, err = vfbScan(n.tap.Store)
+			bs, err = vfbScanStable(n.tap.Store)
 		} else {
 			nt.StopNode(n)
 			st, e := nt.openStore(n)
